@@ -8,7 +8,7 @@ from vlib.term import z, to_coq
 
 ID = 'C08'
 PROP_FILE = 'Props/C08.v'
-EVAL_FILES = ['Oracle/C08Oracle.v', 'Proofs/BroadcastThreadsProofs.v']
+EVAL_FILES = ['Oracle/C08Oracle.v', 'Proofs/BroadcastThreadsProofs.v', 'Proofs/BroadcastOrder.v']
 CRATES = ['c08']
 MODES = ['debug', 'release']
 IMPORTS = ('Require Import V.Base.MachineInt V.Model.LogBase V.Model.Broadcast V.Model.BroadcastThreads V.Model.BroadcastShow V.Spec.Lossy V.Spec.LossyJump V.Oracle.C08Oracle.')
@@ -265,12 +265,93 @@ def _wrap_cases(rng, big):
     return cases
 
 
+def _steps_list(cap, c0, pre, msgs):
+    """shared accesses of the transmitter thread per message (9 with a padding record, 7 without)"""
+    sim = Sim(cap, c0)
+    for m in pre:
+        sim.tx(m[0], m[2])
+    out = []
+    for m in msgs:
+        t0 = sim.tail
+        sim.tx(m[0], m[2])
+        out.append(9 if sim.latest != t0 else 7)
+    return out
+
+
+def _lapin_cases(rng, big):
+    """the receiver is stopped at every point INSIDE receive_next (after the tail read, after the validation, after the
+    read of `latest`, between the header reads) while the transmitter overwrites the record it is looking at - or the
+    record `latest` points at - and is itself stopped at every point of a transmit (tail-intent published, record half
+    written, `latest` not yet updated ...).  On the code without fixes/C08-receive-next-revalidate.diff many of these runs
+    are in the class lap-inside-receive-next; the repaired code must report UnableToKeepUp and recover on all of them."""
+    cases = []
+    for cap in (32, 64):
+        mx = cap // 8
+        fill = cap // 16                      # maximal records that fill the buffer
+        for c0 in ((0, 2**31 - cap, 2**40 + 8) if big else (rng.choice([0, 2**31 - cap, 2**40 + 8]),)):
+            tys = rng.sample(LEGAL, len(LEGAL))
+            pre = [[tys.pop(), 900, rng.choice([mx, mx, 0])]]
+            nmsg = 2 * fill + 3
+            msgs = [[tys.pop(), 10 + i, rng.choice([mx, mx, mx, rng.randrange(0, mx + 1)])] for i in range(nmsg)]
+            nrecv = 3
+            steps = _steps_list(cap, c0, pre, msgs)
+            cum = [0]
+            for st in steps:
+                cum.append(cum[-1] + st)
+            nt = cum[-1]
+            base = {'kind': 'conc', 'cap': cap, 'c0': c0, 'pre': pre, 'msgs': msgs, 'nrecv': nrecv}
+            hot, cold = [], []
+            for j in range(0, nmsg - 1):
+                for d in range(0, steps[j]):
+                    a = cum[j] + d
+                    for b in range(1, 8):
+                        for c in range(1, sum(steps[j:j + fill + 2]) + 1):
+                            sc = [0] * a + [1] * b + [0] * c + [1] * (13 * nrecv) + [0] * nt
+                            # hot: the transmitter is inside a transmit when the receiver looks, the receiver is past its
+                            # validation, the transmitter then goes a little further
+                            (hot if (2 <= b <= 5 and (d >= 2 or c <= 10)) else cold).append(sc)
+            if big:
+                pick = rng.sample(hot, min(len(hot), 500)) + rng.sample(cold, min(len(cold), 250))
+            else:
+                pick = rng.sample(hot, min(len(hot), 36)) + rng.sample(cold, min(len(cold), 12))
+            for sc in pick:
+                cases.append(dict(base, sched=sc))
+    # the family of the recorded witness (found by scanning all schedules of the shape above on the real code): the
+    # transmitter is stopped two accesses before the end of a transmit that wraps (record written at offset 0, `latest`
+    # still pointing at the record it has just overwritten), the lapped receiver reads `latest` and then a length word
+    # that is a payload byte.  Whether the garbage makes the receiver deliver a bogus event depends on the bytes:
+    # these (start counter, lengths) do on the code as found.
+    for c0, prelen, lens, quick in ((2**40 + 8, 4, [1], [(0, 4, 16), (0, 6, 20)]), (0, 0, [1], [(1, 5, 30), (1, 5, None)]),
+                                    (0, 0, [2, 1], [(1, 4, 30)])):
+        cap = 32
+        pre = [[3847, 900, prelen]]
+        tys = [t for t in LEGAL if t != 3847]
+        msgs = [[tys[i], 10 + i, lens[i % len(lens)]] for i in range(7)]
+        steps = _steps_list(cap, c0, pre, msgs)
+        cum = [0]
+        for st in steps:
+            cum.append(cum[-1] + st)
+        nt = cum[-1]
+        base = {'kind': 'conc', 'cap': cap, 'c0': c0, 'pre': pre, 'msgs': msgs, 'nrecv': 3}
+        fam = []
+        for j in range(len(msgs) - 1):
+            if steps[j] == 9:
+                for b in (4, 5, 6):
+                    for c in (list(range(14, 33)) + [nt]):
+                        if big or (j, b, c) in quick or (c == nt and (j, b, None) in quick):
+                            fam.append([0] * (cum[j] + 7) + [1] * b + [0] * c + [1] * 39 + [0] * nt)
+        for sc in fam:
+            cases.append(dict(base, sched=sc))
+    return cases
+
+
 def generate(rng, tier):
     big = tier == 'thorough'
     cases = _seq_cases(rng, big)
     cases += _lag_cases(rng, big)
     cases += _conc_cases(rng, big)
     cases += _wrap_cases(rng, big)
+    cases += _lapin_cases(rng, big)
     return cases
 
 
@@ -406,19 +487,21 @@ _KC_CACHE = {}
 
 
 def known_class(c, mode, obs):
-    """lap-inside-receive-next: a receive_next committed a cursor that is not the position of a record of the stream
-    (ghost flag g_ok of Proofs/BroadcastThreadsProofs.v is false on this schedule) - exactly the runs C08_seqlock_partial excludes."""
-    if c.get('kind') != 'conc':
+    """lap-inside-receive-next: receive_next of the code without fixes/C08-receive-next-revalidate.diff read a header word
+    while a validation of the record it belongs to would have failed (ghost flag h_in of Proofs/BroadcastOrder.v is true
+    on this schedule) - exactly the runs C08_interleaved excludes.  The repaired code is never in the class
+    (C08_interleaved_repaired holds on every schedule)."""
+    if c.get('kind') != 'conc' or version() != 'W64':
         return None
     key = (json.dumps(c, sort_keys=True), mode)
     if key not in _KC_CACHE:
         fuel = 13 * (len(c['msgs']) + c['nrecv']) + 13
-        e = ('g_ok (grun %s %s true %s (ginit %s %s %s %s %d%%nat) (%s ++ repeat 0 %d%%nat ++ repeat 1 %d%%nat))' % (
-            z(c['cap']), mode_c(mode), version(), z(c['cap']), z(c['c0']), _msgs_coq(c['pre']), _msgs_coq(c['msgs']), c['nrecv'],
+        e = ('h_in (hrun %s %s true W64 (hinit %s %s %s %s %d%%nat) (%s ++ repeat 0 %d%%nat ++ repeat 1 %d%%nat))' % (
+            z(c['cap']), mode_c(mode), z(c['cap']), z(c['c0']), _msgs_coq(c['pre']), _msgs_coq(c['msgs']), c['nrecv'],
             '[' + '; '.join(str(t) for t in c['sched']) + ']', fuel, fuel))
         tag = 'C08_kc_%s' % hashlib.sha1(key[0].encode()).hexdigest()[:12]
-        v = core.coq_eval(tag, IMPORTS + ' Require Import V.Proofs.BroadcastThreadsProofs.', [e])
-        _KC_CACHE[key] = (v[0] == ('app', 'false', []))
+        v = core.coq_eval(tag, IMPORTS + ' Require Import V.Proofs.BroadcastThreadsProofs. Require Import V.Proofs.BroadcastOrder.', [e])
+        _KC_CACHE[key] = (v[0] == ('app', 'true', []))
     return 'lap-inside-receive-next' if _KC_CACHE[key] else None
 
 
